@@ -2,7 +2,11 @@
 (* Trace validation for C01, C05 and C12: observations recorded from real muxes are judged      *)
 (* against the contract layer of HttpRouter.                                                     *)
 (*                                                                                              *)
-(*   {"ev":"cfg","cfg":C}                  a new server configuration (fresh muxes)              *)
+(*   {"ev":"cfg","cfg":C}                  a new server configuration (fresh muxes); C.mapper    *)
+(*        lists the backend names that exist, each standing for the instance of that name        *)
+(*   {"ev":"cfg","cfg":C,"insts":[L],"same":true}   the table behind the MuxMapper of the        *)
+(*        running muxes has changed (no reload): C as before except C.mapper, the names that     *)
+(*        exist now; insts[i] is the label of the instance registered under C.mapper[i]          *)
 (*   {"ev":"req","q":Q,"ou":O,"oc":O,"zu":O,"zc":O,"cul":[P]}                                    *)
 (*        the same request served by the real mux built from C with the route cache off (ou)    *)
 (*        and on (oc), and by the filter-less twins of the two (zu, zc); harnesses that do not   *)
@@ -24,14 +28,16 @@ VARIABLE l
 tvars == <<vars, l>>
 
 SeqToSet(s) == {s[i] : i \in DOMAIN s}
+(* the table behind the MuxMapper: names[i] exists and stands for the instance insts[i] *)
+MapperOf(names, insts) == [b \in SeqToSet(names) |-> insts[CHOOSE i \in DOMAIN names : names[i] = b]]
 TNoCfg(c) == FALSE          \* CfgInit is not used here: configurations come from the trace
 
 TInit == /\ l = 1
-         /\ cfg = [ipf |-> NoFilter, rules |-> <<>>, mapper |-> {}]
+         /\ cfg = [ipf |-> NoFilter, rules |-> <<>>, mapper |-> [b \in {} |-> b]]
          /\ cache = EmptyCache /\ cache0 = EmptyCache /\ n = 0 /\ last = [a |-> "cfg"]
 
 TCfg == /\ l <= Len(TLog) /\ TLog[l].ev = "cfg"
-        /\ cfg' = [TLog[l].cfg EXCEPT !.mapper = SeqToSet(@)]
+        /\ cfg' = [TLog[l].cfg EXCEPT !.mapper = MapperOf(@, IF "insts" \in DOMAIN TLog[l] THEN TLog[l].insts ELSE @)]
         /\ l' = l + 1
         /\ UNCHANGED <<cache, cache0, n, last>>
 
